@@ -798,6 +798,7 @@ func (g *jg) stmt(sb *strings.Builder, d int, inLoop bool) {
 				v := g.declare(&vr{name: g.fresh("alias"), typ: o.ktyp[key], mut: kw != "const"}, kw)
 				g.note("prop", key)
 				g.note("obj-key", key)
+				g.note("pattern-key", key)
 				parts = append(parts, key+":"+g.sp()+v.name)
 				logs = append(logs, v.name)
 			case kk < 90: // {key = default}
